@@ -76,6 +76,17 @@ def guestRegionNew (b : Built) (guestBase : Nat) : Except BErr (Built × Nat) :=
   | none => .error .invalidGuestRegion
   | some _ => .ok (b, guestBase)
 
+/-- `MmapRegion::fds_overlap(&self, other)`: both regions file-backed, the same descriptor number, and
+    `if s1 < s2 { s1 + l1 > s2 } else { s2 + l2 > s1 }` (plain `+`) -/
+def fdsOverlap (sameFd : Bool) (a b : Option (Nat × Nat)) : Res Bool :=
+  match a, b with
+  | some (s1, l1), some (s2, l2) =>
+    if sameFd then
+      if s1 < s2 then (addP s1 l1) >>= fun e => pure (decide (e > s2))
+      else (addP s2 l2) >>= fun e => pure (decide (e > s1))
+    else .ok false
+  | _, _ => .ok false
+
 /-! ### Xen request validation -/
 abbrev Flags := BitVec 32
 def XEN_FOREIGN : Flags := 0x1
